@@ -1,6 +1,6 @@
 (* C12 — minifying never runs code taken from the input. *)
 From Coq Require Import String.
-From PM Require Import Model.Base Model.MiniString Proofs.MiniStringProofs Gen.EvalSites.
+From PM Require Import Model.Base Model.MiniString Proofs.MiniStringProofs Gen.EvalSites Model.FStr Proofs.FStrProofs.
 Open Scope bool_scope.
 
 (* For EVERY string, in normal and safe mode, with either quote character: the text MiniString hands to eval(),
@@ -15,6 +15,24 @@ Theorem C12_ministring_closed_long : forall safe q s,
   is_quote q -> scan_long q (to_long safe q s ++ [q; q; q]) = Some [].
 Proof. exact ministring_closed_long. Qed.
 Print Assumptions C12_ministring_closed_long.
+
+(* f_string.Str / f_string.Bytes on Python 3.12+ (a string or bytes constant nested in an f-string replacement field):
+   for EVERY value and every starting quote, the text that `__str__` hands to eval() is a sequence of complete string /
+   bytes literals (each closed according to the reference scanner) separated by single spaces, and nothing else - no
+   character of the value can end up outside a literal; and it contains no raw line break or NUL.
+   The model is tied to f_string.py by leg Q (the texts really passed to eval, the quote lists really used). *)
+Theorem C12_fstring_str_text_is_literals : forall start s, In start full_quotes ->
+  exists txt, str_candidate start s = Some txt /\ lits_text txt.
+Proof. exact str_candidate_closed. Qed.
+Print Assumptions C12_fstring_str_text_is_literals.
+Theorem C12_fstring_bytes_text_is_literals : forall start s, In start full_quotes ->
+  exists txt, bytes_candidate start s = Some txt /\ lits_text txt.
+Proof. exact bytes_candidate_closed. Qed.
+Print Assumptions C12_fstring_bytes_text_is_literals.
+Theorem C12_fstring_escapes_have_no_raw_break : forall c,
+  forallb no_raw (esc_str c) = true /\ forallb no_raw (esc_bytes c) = true.
+Proof. intro c. split; [apply esc_str_no_raw | apply esc_bytes_no_raw]. Qed.
+Print Assumptions C12_fstring_escapes_have_no_raw_break.
 
 (* the complete list of evaluation / import / file / process call sites in the package, re-read on every run,
    is exactly the reviewed list: five eval sites (MiniString x2, f_string.Str, f_string.Bytes, safe_eval), the unused
